@@ -539,9 +539,11 @@ class BaseNode402(RemoteNode):
         :raises RuntimeError: If the switch is not confirmed within the configured timeout.
         :raises ValueError: Trying to execute a illegal transition in the state machine.
         """
+        # Read the statusword only once, the drive may change state between two reads
+        statusword = self.statusword
         for state, mask_val_pair in State402.SW_MASK.items():
             bitmask, bits = mask_val_pair
-            if self.statusword & bitmask == bits:
+            if statusword & bitmask == bits:
                 return state
         return 'UNKNOWN'
 
@@ -569,11 +571,15 @@ class BaseNode402(RemoteNode):
             return State402.next_state_indirect(from_state)
 
     def _change_state(self, target_state):
+        from_state = self.state
+        if from_state == target_state:
+            # Already there, e.g. by an automatic transition of the drive
+            return True
         try:
-            self.controlword = State402.TRANSITIONTABLE[(self.state, target_state)]
+            self.controlword = State402.TRANSITIONTABLE[(from_state, target_state)]
         except KeyError:
             raise ValueError(
-                f'Illegal state transition from {self.state} to {target_state}')
+                f'Illegal state transition from {from_state} to {target_state}')
         timeout = time.monotonic() + self.TIMEOUT_SWITCH_STATE_SINGLE
         while self.state != target_state:
             if time.monotonic() > timeout:
